@@ -143,4 +143,51 @@ theorem quantile_mono_any (ds : List Rat) (hne : ds ≠ []) {q₁ q₂ : Rat} (h
         mul_le_mul_of_nonneg_right h12 hn
       nlinarith
 
+/-- `even`: exactly `n` edges, strictly increasing, equal widths, ending at `m` -/
+theorem evenEdges_spec (n : ℕ) (m : Rat) (hn : 0 < n) (hm : 0 < m) :
+    (evenEdges n m).length = n ∧
+    (evenEdges n m).Pairwise (· < ·) ∧
+    (0 :: evenEdges n m).Pairwise (· ≤ ·) ∧
+    (∀ i (hi : i < (evenEdges n m).length),
+        (evenEdges n m)[i] - (0 :: evenEdges n m)[i]'(by simp; omega) = m / n) ∧
+    (evenEdges n m).getLast? = some m ∧
+    (∀ e ∈ evenEdges n m, 0 < e ∧ e ≤ m) := by
+  have hn' : (0 : Rat) < (n : Rat) := by exact_mod_cast hn
+  have hlt : (evenEdges n m).Pairwise (· < ·) := by
+    unfold evenEdges
+    apply pairwise_map_range
+    intro i j hij _
+    have : (i : Rat) < (j : Rat) := by exact_mod_cast hij
+    apply div_lt_div_of_pos_right _ hn'
+    nlinarith
+  have hmem : ∀ e ∈ evenEdges n m, 0 < e ∧ e ≤ m := by
+    intro e he
+    unfold evenEdges at he
+    obtain ⟨i, hi, rfl⟩ := List.mem_map.1 he
+    have hi' : ((i : Rat) + 1) ≤ (n : Rat) := by
+      have := List.mem_range.1 hi
+      exact_mod_cast this
+    constructor
+    · positivity
+    · rw [div_le_iff₀ hn']; nlinarith
+  refine ⟨evenEdges_length n m, hlt, ?_, ?_, ?_, hmem⟩
+  · rw [List.pairwise_cons]
+    exact ⟨fun e he => (hmem e he).1.le, hlt.imp le_of_lt⟩
+  · intro i hi
+    rw [evenEdges_get]
+    cases i with
+    | zero => simp
+    | succ k =>
+      have hk : k < (evenEdges n m).length := by omega
+      simp only [List.getElem_cons_succ]
+      rw [evenEdges_get n m k hk]
+      push_cast; field_simp; ring
+  · unfold evenEdges
+    rw [List.getLast?_map, List.getLast?_range]
+    have : n ≠ 0 := by omega
+    simp only [this, if_false, Option.map_some]
+    congr 1
+    have h1 : 1 ≤ n := hn
+    rw [Nat.cast_sub h1]; push_cast; field_simp; ring
+
 end Skg
